@@ -94,6 +94,8 @@ type found struct {
 	prog *sim.Program
 	race *sim.RaceReport
 	bin  string
+	nw   int
+	base uint64
 }
 
 var (
@@ -181,7 +183,7 @@ func main() {
 					mu.Lock()
 					for _, l := range lines {
 						for _, v := range l.Violations {
-							viols = append(viols, found{v: v, run: l.Run, prog: l.Program, bin: bin})
+							viols = append(viols, found{v: v, run: l.Run, prog: l.Program, bin: bin, nw: nw, base: base})
 						}
 					}
 					if s != nil {
@@ -220,7 +222,7 @@ func main() {
 						} else {
 							viols = append(viols, found{v: sim.Violation{Property: id, Class: sim.VRace, Op: rr.Signature(),
 								Detail: fmt.Sprintf("data race between %s (%s) and %s (%s)", rr.Frames[0], rr.Lines[0], rr.Frames[1], rr.Lines[1])},
-								run: p.Run, prog: &p, race: rr, bin: bin})
+								run: p.Run, prog: &p, race: rr, bin: bin, nw: nw, base: base})
 						}
 						mu.Unlock()
 						// continue after the run that raced
@@ -391,8 +393,23 @@ func writeReplay(f found, tree string) string {
 	}
 	cmd := exec.Command(filepath.Join(work, f.bin), args...)
 	cmd.Stderr = os.Stderr
-	if err := cmd.Run(); err != nil {
-		fmt.Fprintf(os.Stderr, "ctl: minimisation of %s did not complete (%v); the unminimised trace is kept and still replays\n", path, err)
+	err := cmd.Run()
+	if ee, ok := err.(*exec.ExitError); ok && ee.ExitCode() == 3 && f.nw > 0 {
+		// Not reproducible from a fresh process: the library kept state from
+		// earlier runs of the same worker. Record those runs as warm-up.
+		w := f.run % uint64(f.nw)
+		base := f.base
+		rf.Warmup = &sim.Warmup{Profile: f.prog.Profile, Seed: seed, From: base + (f.run-base)%uint64(f.nw), Stride: uint64(f.nw), Count: int((f.run - base) / uint64(f.nw))}
+		_ = w
+		rf.Notes = append(rf.Notes, "the violation needs the process history: the replay first re-executes the runs the worker had executed before")
+		b, _ := json.MarshalIndent(&rf, "", " ")
+		os.WriteFile(path, b, 0o644)
+		cmd = exec.Command(filepath.Join(work, f.bin), args...)
+		cmd.Stderr = os.Stderr
+		err = cmd.Run()
+	}
+	if err != nil {
+		fmt.Fprintf(os.Stderr, "ctl: minimisation of %s did not complete (%v); the unminimised trace is kept\n", path, err)
 	}
 	return path
 }
